@@ -22,7 +22,7 @@ RULE = ("Random interleavings (5-80 operations) of quotes and discontinuations o
         "contains a discontinuation followed by a quote for the same contract, or a chain-addressed quote after a roll.")
 ASSUMPTIONS = ["a quote is 'accepted' iff its book is alive; rejected quotes must not be appended to the history"]
 REQUIRED = ["C14:price", "C14:alive", "C14:history", "C14:sides", "C14:chain-key-is-lead", "C14:string-key-same-book", "C14:vectors"]
-REQUIRED_CATS = ["chain-quote-built-before-roll", "quote-type:int", "quote-type:npint", "quote-type:f32", "chain-from-unsorted-list", "quote:one-side-only", "query:sparse", "query:all-keys-every-op", "op:disc", "op:chainq", "op:strq", "quote-after-death", "chain-after-roll"]
+REQUIRED_CATS = ["late-print-stamped-before-discontinuation", "chain-quote-built-before-roll", "quote-type:int", "quote-type:npint", "quote-type:f32", "chain-from-unsorted-list", "quote:one-side-only", "query:sparse", "query:all-keys-every-op", "op:disc", "op:chainq", "op:strq", "quote-after-death", "chain-after-roll"]
 TECHNIQUE = "runtime monitoring: executable reference model (dict of books) compared after every operation of generated histories"
 LEVEL_TEXT = ("Exploration: history + executable model. Every generated quote/discontinuation history is replayed against a small "
               "deterministic model and every observable of every book is compared after each operation.")
@@ -115,20 +115,25 @@ def case(ctx, i, tier):
                     ctx.cat("chain-after-roll")
             else:
                 key, tgt = sym, sym
+            te = t
+            if not m(tgt)["alive"] and rng.random() < 0.5:
+                # a LATE print for a contract that is already discontinued, stamped before the discontinuation
+                te = t - timedelta(days=rng.choice([1, 30]), seconds=rng.choice([0, 1]))
+                ctx.cat("late-print-stamped-before-discontinuation")
             if isinstance(key, str):
                 e = EventNBBO.__new__(EventNBBO)
-                e.time, e.contract, e.bid_price, e.ask_price = t, key, b, a
+                e.time, e.contract, e.bid_price, e.ask_price = te, key, b, a
                 e.mid_price = (a + b) / 2
                 e.bid_size = e.ask_size = np.inf
             elif key is ch and rng.random() < 0.5:
                 # a feed prepared up front: the event object is BUILT while the process clock still stands at the
                 # start of the data (before any roll) and PROCESSED when its time has come
                 AbstractContract.now = rng.choice([datetime.min, datetime(2019, 1, 2)])
-                e = EventNBBO(t, key, b, a)
+                e = EventNBBO(te, key, b, a)
                 AbstractContract.now = t
                 ctx.cat("chain-quote-built-before-roll")
             else:
-                e = EventNBBO(t, key, b, a)
+                e = EventNBBO(te, key, b, a)
             (e.notify([ex]) if via else ex.process_EventNBBO(e))
             mm = m(tgt)
             if mm["alive"]:
